@@ -204,6 +204,63 @@ CkPassPair(s) == IF s = <<>> THEN <<>>
                  ELSE <<s[1]>> \o CkPassPair(Tail(s))
 CookieDecodeTwoPass(s) == IF Quoted(s) THEN CkPassPair(CkPassOct(SubSeq(s, 2, Len(s) - 1))) ELSE s
 
+(* ---- cookie NAMES (strings as code points) ------------------------------------------------------------------- *)
+(* RFC 6265 4.1.1: cookie-name = token; RFC 7230 3.2.6: token = 1*tchar,
+     tchar = "!" / "#" / "$" / "%" / "&" / "'" / "*" / "+" / "-" / "." / "^" / "_" / "`" / "|" / "~" / DIGIT / ALPHA.
+   Everything else cannot be part of a name: the separators ( ) < > @ , ; : \ " / [ ] ? = { }, blanks, control
+   characters, non-ASCII.  set_cookie / unset_cookie accept exactly the legal names (documented KeyError otherwise)
+   and put an accepted name on the Set-Cookie line as it is. *)
+CknDigit(c)    == c >= 48 /\ c <= 57
+CknLetter(c)   == (c >= 65 /\ c <= 90) \/ (c >= 97 /\ c <= 122)
+CknSpecials    == {33, 35, 36, 37, 38, 39, 42, 43, 45, 46, 94, 95, 96, 124, 126}
+CknSeparators  == {40, 41, 60, 62, 64, 44, 59, 58, 92, 34, 47, 91, 93, 63, 61, 123, 125}
+CknTchar(c)    == CknDigit(c) \/ CknLetter(c) \/ c \in CknSpecials
+CookieNameLegal(n) == n # <<>> /\ \A i \in 1..Len(n) : CknTchar(n[i])
+(* wrong design: the legal keys of http.cookies (its _LegalChars) - the token characters and the colon *)
+CookieNameLegalHttpCookies(n) == n # <<>> /\ \A i \in 1..Len(n) : (CknTchar(n[i]) \/ n[i] = 58)
+
+(* The echo: a user agent returns the cookies it holds in ONE header (RFC 6265 4.2.1),
+     cookie-string = cookie-pair *( ";" SP cookie-pair ),  cookie-pair = cookie-name "=" cookie-value
+   with name and value as they stood on the Set-Cookie line.  ps: sequence of [n, v] (v: the uncoded value). *)
+CookiePair(p) == p.n \o <<61>> \o CookieEncode(p.v)
+RECURSIVE CookieHeader(_)
+CookieHeader(ps) == IF ps = <<>> THEN <<>>
+                    ELSE IF Len(ps) = 1 THEN CookiePair(ps[1])
+                    ELSE CookiePair(ps[1]) \o <<59, 32>> \o CookieHeader(Tail(ps))
+(* What the request API makes of a Cookie header (RFC 6265 5.4 read leniently, as the docs of Request.cookies say):
+   the pieces between semicolons; a piece is name "=" value at its FIRST "="; blanks around both are dropped; a piece
+   without a name, or whose name is not a token, is skipped; a quoted value is unquoted.  The result keeps every
+   value per name in header order (get_cookie_values); Request.cookies has the first. *)
+CknBlank(c) == c \in {32, 9}
+RECURSIVE CknLTrim(_)
+CknLTrim(s) == IF s # <<>> /\ CknBlank(s[1]) THEN CknLTrim(Tail(s)) ELSE s
+RECURSIVE CknRTrim(_)
+CknRTrim(s) == IF s # <<>> /\ CknBlank(s[Len(s)]) THEN CknRTrim(SubSeq(s, 1, Len(s) - 1)) ELSE s
+CknTrim(s)  == CknRTrim(CknLTrim(s))
+CknFirst(s, c) == IF \E i \in 1..Len(s) : s[i] = c THEN CHOOSE i \in 1..Len(s) : s[i] = c /\ \A j \in 1..(i - 1) : s[j] # c
+                  ELSE Len(s) + 1
+RECURSIVE CknPieces(_)
+CknPieces(s) == LET i == CknFirst(s, 59) IN
+                IF i > Len(s) THEN <<s>> ELSE <<SubSeq(s, 1, i - 1)>> \o CknPieces(SubSeq(s, i + 1, Len(s)))
+CknPairOf(piece) == LET i == CknFirst(piece, 61) IN
+                    [n |-> CknTrim(SubSeq(piece, 1, i - 1)), v |-> CookieDecode(CknTrim(SubSeq(piece, i + 1, Len(piece))))]
+ReadCookieHeader(h) == LET ps == CknPieces(h)
+                           all == [i \in 1..Len(ps) |-> CknPairOf(ps[i])]
+                       IN  SelectSeq(all, LAMBDA p : CookieNameLegal(p.n))
+CookieValuesOf(h, n) == LET rd == ReadCookieHeader(h)
+                            hit == SelectSeq(rd, LAMBDA p : p.n = n)
+                        IN  [i \in 1..Len(hit) |-> hit[i].v]
+(* the law: a name set_cookie accepts, with any value it accepts, sent back between other cookies, is read back
+   under the same name with the same value - and the neighbours keep theirs.  `accept` is the writer's test
+   (CookieNameLegal; the wrong design takes CookieNameLegalHttpCookies). *)
+CookieNameRoundTripOf(accepted, n, v, before, after) ==
+    accepted =>
+        LET h == CookieHeader(before \o <<[n |-> n, v |-> v]>> \o after)
+            others == before \o after
+        IN  /\ CookieValuesOf(h, n) = <<v>>              \* (the neighbours have other names, pairwise distinct)
+            /\ \A i \in 1..Len(others) : CookieValuesOf(h, others[i].n) = <<others[i].v>>
+            /\ Len(ReadCookieHeader(h)) = Len(others) + 1
+
 (* ---- emission ------------------------------------------------------------------------------ *)
 (* The framework adds the default media type when the handler set no Content-Type and states the
    length of the body; the handler here produces no body. *)
